@@ -1051,11 +1051,12 @@ class ConditionalRelation(RelationProtocol, SimpleRepr):
             # We have all arguments to evaluate the condition, we can take it
             # out when slicing.
             if self._condition(**cond_args):
-                if len(partial_assignment) > len(cond_args):
-                    # We have some extra variables to slice the consequence on.
-                    slice_dict = {
-                        k: v for k, v in partial_assignment.items() if k in true_names
-                    }
+                # Slice the consequence on the variables it depends on (some
+                # of them may also be variables of the condition).
+                slice_dict = {
+                    k: v for k, v in partial_assignment.items() if k in true_names
+                }
+                if slice_dict:
                     return self._relation_if_true.slice(slice_dict)
                 else:
                     return self._relation_if_true
@@ -1083,7 +1084,12 @@ class ConditionalRelation(RelationProtocol, SimpleRepr):
             else:
                 sliced_rel = self._relation_if_true
 
-            return ConditionalRelation(sliced_cond, sliced_rel)
+            return ConditionalRelation(
+                sliced_cond,
+                sliced_rel,
+                name=self.name,
+                return_neutral=self._return_neutral,
+            )
 
     def get_value_for_assignment(self, assignment):
 
